@@ -649,13 +649,52 @@ Proof.
   intros s s' Hs E. apply IH; auto.
 Qed.
 
+(* ---- the runaway-unwrap guard is never reached by a chain that makes progress at every step *)
+Lemma andb_true_r' b : b && true = b. Proof. destruct b; reflexivity. Qed.
+
+Lemma guard_frames g : 2 <= g -> forall n cnt, cnt <= 1 -> guard_run g true cnt (repeat true n) = false.
+Proof.
+  intros Hg. induction n as [|n IH]; intros cnt Hc; simpl; [reflexivity|].
+  assert (E : (g <? S cnt) = false) by (apply Nat.ltb_ge; lia). rewrite E. apply IH. lia.
+Qed.
+
+Lemma guard_progress g reset : (2 <=? g) = true -> reset = true ->
+  forall n, guard_run g reset 0 (task_chain n) = false.
+Proof.
+  intros Hg -> n. apply Nat.leb_le in Hg. unfold task_chain. simpl.
+  assert (E : (g <? 1) = false) by (apply Nat.ltb_ge; lia). rewrite E.
+  apply guard_frames; auto.
+Qed.
+
+(* ... whereas without the reset at a Frame the guard caps the total length of the chain *)
+Lemma guard_noreset g : forall chain cnt, cnt <= g -> g < cnt + length chain ->
+  guard_run g false cnt chain = true.
+Proof.
+  induction chain as [|y r IH]; intros cnt Hc Hl; simpl in *; [lia|].
+  destruct (g <? S cnt) eqn:E; [reflexivity|]. apply Nat.ltb_ge in E.
+  rewrite andb_false_r. apply IH; lia.
+Qed.
+
+Lemma guard_noreset_task g n : g <= n -> guard_run g false 0 (task_chain n) = true.
+Proof.
+  intros H. apply guard_noreset; [lia|]. unfold task_chain. simpl. rewrite repeat_length. lia.
+Qed.
+
+Lemma root_chain_clean r : guard_run unwrap_guard_const true 0 (root_chain r) = false.
+Proof.
+  destruct r as [[|] [x fs]|tid fs]; try reflexivity.
+  unfold root_chain. apply guard_progress; reflexivity.
+Qed.
+
 Lemma case_ok_sound k : case_ok k = true ->
   tc_obs k = extract (tc_rc k) (tc_root k) /\
-  (tc_iso k = true -> iso (tlookup (tc_nurs k)) (tlookup (tc_kids k)) (tc_obs k)).
+  (tc_iso k = true -> iso (tlookup (tc_nurs k)) (tlookup (tc_kids k)) (tc_obs k)) /\
+  tc_clean k = true.
 Proof.
-  unfold case_ok. intros H. apply andb_true_iff in H as [H1 H2].
-  split; [symmetry; apply stack_eqb_eq; exact H1|].
-  intros E. rewrite E in H2. apply iso_b_sound. exact H2.
+  unfold case_ok. intros H. apply andb_true_iff in H as [H H3]. apply andb_true_iff in H as [H1 H2].
+  split; [symmetry; apply stack_eqb_eq; exact H1|]. split.
+  - intros E. rewrite E in H2. apply iso_b_sound. exact H2.
+  - rewrite root_chain_clean in H3. simpl in H3. apply Bool.eqb_prop in H3. exact H3.
 Qed.
 
 (* ================================================================== C14_iso_hops
